@@ -36,15 +36,17 @@ RULE = (
     "over {ok, 404, 500, protocol error before/inside the body, read time-out, complete body of another length}: all words of length <= 2 "
     "(thorough 3) plus k protocol errors then ok for k in 9..11; L2: every I/O step of a first run (every write, 3 torn offsets per write, "
     "rename, remove) as crash point, second run on the snapshot; L3: offset-table states and crash points on a 100,001-line file; L4: bundled "
-    "document sets: document x archive x format x sizes. "
+    "document sets: document x archive x format x sizes; L5: external decompressor tools as environment {ok, dies midway, dies inside the "
+    "last line, fails immediately} x format x sizes x archive; a failed L1 run is followed by a second run on what it left behind. "
     "non-trivial = a fault, a crash or a non-empty initial state; distinct = the configuration"
 )
 ASSUMPTIONS = [
     "crash = process kill: the directory tree as it is at an I/O step boundary (or inside a write); no power-loss reordering; buffered data that "
     "Python has not yet handed to the OS is modelled by making every write of the code under test unbuffered",
     "HTTP endpoint = scripted net._request (status, Content-Length, stream() raising urllib3 ProtocolError / ReadTimeoutError, "
-    "enforce_content_length as in urllib3: a short body is a ProtocolError); S3/GCS back-ends not modelled; library decompression only "
-    "(io.is_executable answers False) so that the result does not depend on which tools are installed",
+    "enforce_content_length as in urllib3: a short body is a ProtocolError); S3/GCS back-ends not modelled; io.is_executable answers False "
+    "(library decompression) except in layer L5 where the external tool is a scripted subprocess.run, so that the result does not depend "
+    "on which tools are installed",
     "a document file that pre-exists with the right size but other content is outside the statement (Rally has no checksums)",
 ]
 
@@ -441,6 +443,16 @@ def l1_check(case, res):
                 v = ("healthy-download-fails", f"{type(exc).__name__}: {str(exc)[:200]} after {nreq} requests")
         if v is None and outcome == "returned" and doc_state == "correct" and declared and nreq:
             v = ("needless-download", f"{nreq} requests although the document was present and correct")
+        if v is None and outcome == "raised" and len(word) <= 1:
+            # history: the user simply runs Rally again on what the failed run left behind (healthy network this time)
+            ep2 = Endpoint((), archive if fmt else DOC)
+            outcome2, exc2 = prepare(root, ds, ep2, offline)
+            if outcome2 == "returned":
+                g = good_state(root, ds)
+                if g and not (not declared and doc_state == "long" and g[0] == "document-wrong-content"):
+                    v = (f"second-run-returned-but-{g[0]}", f"first run raised {type(exc).__name__}, the second run returned: {g[1]}")
+            elif not isinstance(exc2, Exception):
+                v = ("second-run-no-explicit-error", f"{outcome2}")
     finally:
         shutil.rmtree(root, ignore_errors=True)
     res.case(
@@ -666,6 +678,76 @@ def l4_check(case, res):
                       f"bundled set format={fmt} declared={declared} doc={doc_state} archive={arch_state}: {v[1]}", {"layer": 4, "case": list(case)})
 
 
+# ------------------------------------------------------------------------------------------------ L5 external decompressor tools
+
+
+def l5_cases():
+    for fmt in ("bz2", "gz", "zst"):
+        for declared in (True, False):
+            for tool in ("ok", "dies-midway", "dies-inside-last-line", "fails-immediately", "wrong-output-exit-0"):
+                for arch_state in ("correct", "corrupt"):
+                    yield (fmt, declared, tool, arch_state)
+
+
+def l5_check(case, res):
+    """pbzip2 / pigz / pzstd as environment: the tool may succeed, die after writing part of its output, or fail right away"""
+    setup()
+    import subprocess
+
+    from esrally.utils import io as rio
+
+    fmt, declared, tool, arch_state = case
+    archive = compress(fmt, DOC)
+    root = new_root()
+    v = None
+    calls = []
+    real_run = subprocess.run
+
+    def fake_run(args, stdout=None, stderr=None, check=False, **kw):
+        calls.append(list(args))
+        out = {"ok": DOC, "dies-midway": DOC[: len(DOC) // 2], "dies-inside-last-line": DOC[:-9], "fails-immediately": b"", "wrong-output-exit-0": DOC}[tool]
+        rc = 0 if tool in ("ok", "wrong-output-exit-0") else 1
+        if arch_state == "corrupt" and tool == "ok":
+            out, rc = DOC[:40], 2  # a real tool notices the corruption
+        if stdout is not None:
+            stdout.write(out)
+        if rc and check:
+            raise subprocess.CalledProcessError(rc, args, stderr=b"injected tool failure")
+        return subprocess.CompletedProcess(args, rc, stderr=b"")
+
+    try:
+        populate(root, fmt, "absent", arch_state, archive)
+        ds = docset(fmt, declared, True, archive=archive)
+        rio.is_executable = lambda name: True
+        subprocess.run = fake_run
+        try:
+            outcome, exc = prepare(root, ds, Endpoint((), archive), False)
+        finally:
+            subprocess.run = real_run
+            rio.is_executable = lambda name: False
+        if not calls:
+            v = ("external-tool-not-used", "is_executable answered True but no tool was run")
+        elif outcome == "returned":
+            g = good_state(root, ds)
+            if g:
+                v = (f"returned-but-{g[0]}", g[1])
+        elif not isinstance(exc, Exception):
+            v = ("no-explicit-error", str(outcome))
+        elif arch_state == "correct":
+            # the archive is fine: whatever the tool does, the library fallback can produce the document
+            v = ("healthy-archive-rejected", f"tool {tool}: {type(exc).__name__}: {str(exc)[:200]}")
+    finally:
+        shutil.rmtree(root, ignore_errors=True)
+    res.case(
+        case_repr={"external_tool": tool, "format": fmt, "sizes_declared": declared, "archive": arch_state} if res.sample_now(29) else None,
+        nontrivial_key=("L5", case),
+        outcome_key=("L5", tool, arch_state, v[0] if v else "ok"),
+    )
+    if v:
+        res.violation(f"prepare:{v[0]}:external-tool-{tool}:{fmt}" + ("" if declared else ":sizes-undeclared"),
+                      f"external decompressor {tool} format={fmt} declared={declared} archive={arch_state}: {v[1]}", {"layer": 5, "case": list(case)})
+
+
 def _job(arg):
     layer, items = arg
     res = Result()
@@ -676,6 +758,8 @@ def _job(arg):
             l2_check(it, res)
         elif layer == 4:
             l4_check(it, res)
+        elif layer == 5:
+            l5_check(it, res)
         else:
             l3_check(it, res)
     return res
@@ -686,7 +770,7 @@ def run(tier, seed):
     l2 = list(l2_cases(tier))
     l3 = l3_states()
     l4 = list(l4_cases())
-    jobs = [(1, ch) for ch in par.chunks(l1, par.NPROC * 4)] + [(2, [c]) for c in l2] + [(3, [s]) for s in l3] + [(4, ch) for ch in par.chunks(l4, 8)]
+    jobs = [(1, ch) for ch in par.chunks(l1, par.NPROC * 4)] + [(2, [c]) for c in l2] + [(3, [s]) for s in l3] + [(4, ch) for ch in par.chunks(l4, 8)] + [(5, ch) for ch in par.chunks(list(l5_cases()), 8)]
     res = par.pmap(_job, jobs, seed=seed)
     res.extra["L1_cases"] = len(l1)
     res.extra["L2_histories"] = len(l2)
@@ -707,6 +791,8 @@ def replay(data):
         l2_check((c[0], c[1], tuple(c[2])), res)
     elif data["layer"] == 4:
         l4_check(tuple(data["case"]), res)
+    elif data["layer"] == 5:
+        l5_check(tuple(data["case"]), res)
     else:
         l3_check(data["state"], res)
     return [v for lst in res.violations.values() for v in lst]
